@@ -205,7 +205,7 @@ def parse_with_formats(date_string, date_formats, settings):
                 date_obj = set_correct_day_from_settings(date_obj, settings)
 
             elif missing_month:
-                period = "year"
+                # the day is stated: the period stays "day", as for "15th of 2015"
                 date_obj = set_correct_month_from_settings(date_obj, settings)
 
             elif missing_day:
